@@ -24,7 +24,14 @@ def search(obligation_name, timeout=600):
     if not kind:
         return None
     groups = ['bin']
-    if kind in ('bdd', 'bcdd', 'zbdd'):
+    if kind == 'zbdd':
+        if re.search(r'union|intsec|diff|subset|change|make_node|singleton|api_', fn):
+            groups = ['vecset', 'bin']
+        elif re.search(r'ite', fn):
+            groups = ['ite', 'bin']
+        else:
+            groups = ['bin', 'vecset', 'ite']
+    elif kind in ('bdd', 'bcdd'):
         for pat, gs in GROUPS:
             if re.search(pat, fn):
                 groups = gs
